@@ -713,6 +713,26 @@ def run(ctx):
         if len(toks) >= 2 and nl_only:
             n7 += 1
             ctx.inst("C10.R7", "rule=%s" % n, False, "rule %s is atomic by cascade (all callers atomic), admits NEWLINE between its tokens but no WHITESPACE: spaces legal in sibling constructs are a parse error here" % n, "blots-core/src/grammar.pest")
+    # a line break in a gap may carry an end-of-line comment: either the gap is made of NEWLINE (which reads the comment away), or the
+    # rule names `comment` as an alternative in its gaps (list, record, do_block keep them). A gap that admits only the bare line
+    # break makes `if a // note` + line break a parse error where `if a` + line break parses
+    def mentions(e, names):
+        return any(x["k"] == "ident" and x["v"] in names for x in G.walk(e))
+    n_c = 0
+    for n in G.order:
+        if n in ("plain_newline", "NEWLINE", "WHITESPACE", "program", "input", "statement", "comment", "eol_comment", "inline_comment") or n not in G.rules:
+            continue
+        s = G.seq(G.expr(n)) if G.expr(n)["k"] == "seq" else [x for a_ in G.alts(G.expr(n)) for x in G.seq(a_)]
+        has_comment_alt = mentions(G.expr(n), {"comment", "eol_comment"})
+        bare = []
+        for e in s:
+            g = G.is_ws_gap(e)
+            if g is not None and "nl" in g[0] and mentions(e, {"plain_newline"}) and not mentions(e, {"NEWLINE"}):
+                bare.append(e)
+        toks = [e for e in s if G.is_ws_gap(e) is None]
+        if bare and len(toks) >= 2:
+            n_c += 1
+            ctx.inst("C10.R7", "rule=%s#comment-at-line-end" % n, True if has_comment_alt else False, "rule %s has %d gap(s) that admit a bare line break%s" % (n, len(bare), " and reads comments in its gaps itself" if has_comment_alt else " but neither NEWLINE nor a comment alternative: a line break that follows an end-of-line comment is a parse error there, a bare one is not"), "blots-core/src/grammar.pest")
     ctx.inst("C10.R7", "grammar#cascade-scan", True, "scanned %d rules; %d atomic-by-cascade rules with newline-only gaps" % (len(G.order), n7), "blots-core/src/grammar.pest")
 
 
